@@ -117,7 +117,9 @@ type tokUnit struct {
 	Unit int
 }
 
-func (t tokUnit) MarshalJSON() ([]byte, error) { return json.Marshal([]interface{}{t.ID, t.Form, t.Unit}) }
+func (t tokUnit) MarshalJSON() ([]byte, error) {
+	return json.Marshal([]interface{}{t.ID, t.Form, t.Unit})
+}
 
 func withUnits(toks []tokPair, units []int) []tokUnit {
 	out := make([]tokUnit, len(toks))
